@@ -403,6 +403,40 @@ def run(ctx):
                           'a decoder loop iteration can complete without consuming input (unbounded work / hang on crafted input)')
     ctx.count('decoder_loops', n_loops, 30)
     ctx.analysed['in_memory_bounded_loops_skipped'] = n_skipped
+    # ---------------- R11 a counted repetition is read in full
+    ctx.rule('C12.R11', 'where a structure announces how many elements follow (for _ in range(<decoded count>), e.g. the batch count of a message), the reader decodes exactly that many: every iteration reads one element from the stream and nothing leaves the loop early - otherwise a request whose later batch items are missing or damaged decodes "successfully" as a shorter batch and is executed')
+    n_counted = 0
+    for rel in src.modules('kmip/core'):
+        t = src.tree(rel)
+        for qn, fn, cls in all_functions(t):
+            if fn.name != 'read':
+                continue
+            fors = [x for x in walk_local(fn) if isinstance(x, ast.For) and isinstance(x.iter, ast.Call) and call_name(x.iter) == 'range' and len(x.iter.args) == 1]
+            fors = [x for x in fors if any(isinstance(y, ast.Attribute) and y.attr in ('value', 'batch_count') for y in ast.walk(x.iter.args[0]))
+                    and not (isinstance(x.iter.args[0], ast.Attribute) and x.iter.args[0].attr in ('length', 'padding_length'))
+                    and not any(isinstance(y, ast.Attribute) and y.attr in ('length', 'padding_length') for y in ast.walk(x.iter.args[0]))]
+            if not fors:
+                continue
+            fg = CFG(fn)
+            for lp in fors:
+                ln = [n for n in fg.nodes if n.kind == 'loop' and n.stmt is lp]
+                if not ln:
+                    continue
+                ln = ln[0]
+                n_counted += 1
+                lsite = '%s:%s %s' % (rel, lp.lineno, qn)
+                reads = [n for n in fg.nodes if lp in n.loops and any(isinstance(c.func, ast.Attribute) and c.func.attr == 'read' and c.args for c in calls_at(n))]
+                early = [n for n in fg.nodes if n.kind == 'stmt' and lp in n.loops and n.loops[-1] is lp and isinstance(n.stmt, (ast.Break, ast.Return))]
+                skipping = False
+                for st_ in edge_successors(ln, 'T'):
+                    seen = fg.reachable(st_, reads + [ln]) if st_ not in reads else set()
+                    for n in fg.nodes:
+                        if n.id in seen and any(m is ln and l in ('loop', 'continue') for m, l in n.succ):
+                            skipping = True
+                ctx.check(bool(reads) and not early and not skipping, 'C12.R11', '%s|counted-repetition-read-in-full' % qn, lsite,
+                          'each of the %s announced elements is read; the loop is not left early' % U(lp.iter.args[0]),
+                          'the reader can accept fewer elements than announced by %s (break/return in the loop, or an iteration that reads nothing): a damaged or truncated batch is decoded as a shorter one' % U(lp.iter.args[0]))
+    ctx.count('counted_repetitions', n_counted, 2)
     ut = src.tree(UTILS)
     bs = get_class(ut, 'BytearrayStream')
     rdm = get_method(bs, 'read')
